@@ -246,10 +246,12 @@ fn other_environment(cmd: &mut Command) {
 
 /// violations reported by the JavaScript host leg that ran just before (C14 only, see ./check)
 fn hostleg_violations(property: &str) -> usize {
-    if property != "C14" {
-        return 0;
-    }
-    std::fs::read_to_string(format!("{}/out/hostleg.json", home()))
+    let file = match property {
+        "C14" => "hostleg.json",
+        "C10" => "hostdet.json",
+        _ => return 0,
+    };
+    std::fs::read_to_string(format!("{}/out/{}", home(), file))
         .ok()
         .and_then(|s| serde_json::from_str::<serde_json::Value>(&s).ok())
         .and_then(|v| v.get("violations").and_then(|x| x.as_array()).map(|a| a.len()))
